@@ -333,9 +333,10 @@ PROPS = {
             'is zero) or (`||` and it is not), otherwise nothing runs and the status stays - left to right, equal precedence, because each '
             'element only looks at the status left by what ran before it; `!` inverts only the status (0 <-> 1 / non-zero -> 0) and only when '
             'the commands ended normally, a divert passes through un-inverted; the condition of if / while / until holds iff its last command '
-            'succeeded. '
+            'succeeded; the if command tries its conditions in order, runs a `then` branch only right after ITS condition held and the else '
+            'branch only after every condition failed, has the status and result of the branch it ran, and status 0 when it ran none. '
             'NOT decided: everything else C02 says - which commands run in which order with which $?, multi-command pipelines, '
-            'if/for/case, functions and return, the decoding of Break/Continue diverts by for loops, the exit status of loops, the $PATH walk '
+            'for/case, functions and return, the decoding of Break/Continue diverts by for loops, the exit status of loops, the $PATH walk '
             'itself (search_path: iterator adapters over strings, assumed), Env::builtin (availability under posixly-correct / portable).'),
         'trusted_base': ['Verus 0.2026.09.13 + Z3', 'Kani 0.68.0 + CBMC 6.11', '/verif/tools/vextract.py, /verif/tools/kunit.py'],
         'assumptions': [
@@ -494,7 +495,8 @@ PROPS = {
             'Condition frame on top of the caller\'s stack; a negated pipeline (pipeline.rs) runs its commands with one, a plain pipeline '
             'without; AndOrList::execute (and_or.rs) runs every pipeline of the list with a Condition frame directly above the caller\'s stack '
             'EXCEPT the last one, which runs with the caller\'s own stack - exactly "every pipeline of an and-or list but the last"; and in '
-            'each case the stack is as it was afterwards. NOT decided: which commands consult '
+            'each case the stack is as it was afterwards; the if command (compound_command/if.rs) evaluates its conditions - if and every '
+            'elif alike - in exempt contexts and runs the chosen branch with the caller\'s own stack. NOT decided: which commands consult '
             'apply_errexit, and the consequences-of-shell-errors table (special built-in errors, redirection errors, assignment errors, '
             'expansion errors): all of that is async interpreter code outside both tools.'),
         'trusted_base': ['Verus 0.2026.09.13 + Z3', 'Kani 0.68.0 + CBMC 6.11', '/verif/tools/vextract.py, /verif/tools/kunit.py'],
